@@ -126,6 +126,7 @@ func runOkta(rep *vh.Report, env vh.Env, i int) {
 		kind string // ask | chg | fail | sleep
 		user string
 		gs   []string
+		ek   int // fail: error kind of the next directory answer
 	}
 	var sets [][]string
 	newSet := func() []string {
@@ -140,9 +141,78 @@ func runOkta(rep *vh.Report, env vh.Env, i int) {
 	n := 10 + r.Intn(21)
 	var steps []step
 	sleeps := 0
+	askedBy := map[string][][]string{} // per user: the sets asked so far (generation-time view)
+	noteAsk := func(u string, s []string) { askedBy[u] = append(askedBy[u], uniqSorted(s)) }
+	// errMiss: a user who has asked about set A before asks about a NEW set B related to A while the
+	// directory fails with a given kind: superset / subset / overlapping / disjoint
+	errMiss := func() bool {
+		var cand []string
+		for _, u := range users {
+			if len(askedBy[u]) > 0 {
+				cand = append(cand, u)
+			}
+		}
+		if len(cand) == 0 {
+			return false
+		}
+		u := cand[r.Intn(len(cand))]
+		a := askedBy[u][r.Intn(len(askedBy[u]))]
+		var rest []string
+		for _, g := range gpool {
+			if !contains(a, g) {
+				rest = append(rest, g)
+			}
+		}
+		for try := 0; try < 8; try++ {
+			var b []string
+			switch r.Intn(4) {
+			case 0:
+				if len(rest) > 0 {
+					b = append(cp(a), rest[r.Intn(len(rest))])
+				}
+			case 1:
+				if len(a) >= 2 {
+					b = shuffled(r, a)[:1+r.Intn(len(a)-1)]
+				}
+			case 2:
+				if len(a) > 0 && len(rest) > 0 {
+					b = []string{a[r.Intn(len(a))], rest[r.Intn(len(rest))]}
+				}
+			default:
+				if len(rest) > 0 {
+					b = shuffled(r, rest)[:1+r.Intn(len(rest))]
+					if len(b) > 2 {
+						b = b[:2]
+					}
+				}
+			}
+			b = uniqSorted(b)
+			if len(b) == 0 || (len(b) == 1 && b[0] == "") {
+				continue
+			}
+			fresh := true
+			for _, prev := range askedBy[u] {
+				if setEq(prev, b) {
+					fresh = false
+				}
+			}
+			if !fresh {
+				continue
+			}
+			steps = append(steps, step{kind: "fail", ek: randErrKind(r)}, step{kind: "ask", user: u, gs: shuffled(r, b)})
+			sets = append(sets, b)
+			noteAsk(u, b)
+			return true
+		}
+		return false
+	}
 	for k := 0; k < n; k++ {
 		x := r.Intn(100)
 		switch {
+		case x < 12:
+			if !errMiss() {
+				steps = append(steps, step{kind: "fail", ek: randErrKind(r)})
+			}
 		case x < 72:
 			var s []string
 			if len(sets) > 0 && r.Intn(100) < 65 {
@@ -154,11 +224,13 @@ func runOkta(rep *vh.Report, env vh.Env, i int) {
 			if len(s) > 0 && r.Intn(10) == 0 {
 				s = append(s, s[r.Intn(len(s))]) // a duplicate: same set, other list
 			}
-			steps = append(steps, step{kind: "ask", user: users[r.Intn(len(users))], gs: s})
+			u := users[r.Intn(len(users))]
+			noteAsk(u, s)
+			steps = append(steps, step{kind: "ask", user: u, gs: s})
 		case x < 86:
 			steps = append(steps, step{kind: "chg", user: users[r.Intn(len(users))], gs: []string{gpool[r.Intn(len(gpool))]}})
 		case x < 94:
-			steps = append(steps, step{kind: "fail"})
+			steps = append(steps, step{kind: "fail", ek: randErrKind(r)})
 		default:
 			if ttl > 0 && sleeps < 2 {
 				sleeps++
@@ -191,7 +263,7 @@ func runOkta(rep *vh.Report, env vh.Env, i int) {
 			case "chg":
 				d.setMember(st.gs[0], st.user, !d.isMember(st.gs[0], st.user))
 			case "fail":
-				d.failNextChecks(1)
+				d.failNextCheck(st.ek)
 			case "sleep":
 				time.Sleep(ttl + 15*time.Millisecond)
 				d.note("slept past ttl")
@@ -225,7 +297,7 @@ func runOkta(rep *vh.Report, env vh.Env, i int) {
 			if st.kind == "chg" {
 				d.setMember(st.gs[0], st.user, !d.isMember(st.gs[0], st.user))
 			} else {
-				d.failNextChecks(1)
+				d.failNextCheck(st.ek)
 			}
 		}
 		wg.Wait()
@@ -293,10 +365,33 @@ func judgeOkta(rep *vh.Report, stream string, idx int, kc *oktaCase, d *dir, qs 
 				viol(q, "directory-asked-a-different-question", fmt.Sprintf("question (%q,%s) reached the directory as (%q,%s)", q.User, sk, c.User, c.SetKey), &c, mine)
 			}
 			if c.Outcome == "error" {
-				res = "err"
+				res = "err:" + c.ErrKind
 				rep.Count("okta_directory_errors", 1)
+				rep.Count("okta_directory_errors_"+c.ErrKind, 1)
+				// had this user been answered successfully about ANOTHER set before? (the shape a
+				// "serve what we remember of this user" fallback needs)
+				for pi := 0; pi < qi; pi++ {
+					pq := &qs[pi]
+					if pq.User == q.User && !pq.Failed && pq.Q1 < q.Q0 && setKey(pq.Asked) != sk {
+						rep.Count("okta_error_on_miss_after_success_for_other_set_"+c.ErrKind, 1)
+						rep.SetAdd("okta_error_on_miss_kind_x_set_relation", c.ErrKind+"/"+setRelation(pq.Asked, q.Asked))
+						break
+					}
+				}
 				if !q.Failed {
-					viol(q, "directory-error-swallowed", "the directory failed but the question was answered", &c, mine)
+					var same *checkRec
+					for ci := range checks {
+						o := &checks[ci]
+						if o.Outcome == "ok" && o.Exit != 0 && o.Exit < q.Q1 && o.User == q.User && o.SetKey == sk && setEq(o.Result, q.Ans) {
+							same = o
+							break
+						}
+					}
+					if same != nil {
+						viol(q, "directory-error-on-miss-not-surfaced err="+c.ErrKind, fmt.Sprintf("the directory failed (%s) on a cache miss for (%q,%s) but the caller got %q with a nil error (an older answer to the same question)", c.ErrKind, q.User, sk, q.Ans), same, mine)
+					} else {
+						viol(q, "answer-without-directory-provenance-after-directory-error err="+c.ErrKind, fmt.Sprintf("the directory failed (%s) on a cache miss for (%q,%s) but the caller got %q with a nil error; the directory never gave that answer for this question", c.ErrKind, q.User, sk, q.Ans), nil, mine)
+					}
 				}
 			} else {
 				if q.Failed {
@@ -392,6 +487,15 @@ var probeTpls = []probeTpl{
 	{"groups 'b','b' vs 'b'", "", "a", "a", []string{"b", "b"}, []string{"b"}},
 	{"groups 'b','c' vs 'c','b'", "", "a", "a", []string{"b", "c"}, []string{"c", "b"}},
 	{"groups 'ab','c' vs 'a','bc'", "", "a", "a", []string{"ab", "c"}, []string{"a", "bc"}},
+	// against an escaping key function (`\,` `\\` `\0`): names that look like escapes
+	{"group '\\0' vs the empty name next to 'a'", "group name contains '\\'", "u", "u", []string{"\\0", "a"}, []string{"", "a"}},
+	{"group '\\0' alone vs no groups", "group name contains '\\'", "u", "u", []string{"\\0"}, []string{}},
+	{"groups 'a\\','b' vs 'a\\,b'", "group name contains '\\'", "u", "u", []string{"a\\", "b"}, []string{"a\\,b"}},
+	{"groups 'a\\,b' vs 'a','b'", "group name contains '\\'", "u", "u", []string{"a\\,b"}, []string{"a", "b"}},
+	{"group 'a\\\\' vs 'a\\'", "group name contains '\\'", "u", "u", []string{"a\\\\", "b"}, []string{"a\\", "b"}},
+	{"groups 'a\\','\\0' vs 'a\\,\\0'", "group name contains '\\'", "u", "u", []string{"a\\", "\\0"}, []string{"a\\,\\0"}},
+	{"group '\\0' alone vs the empty name alone", "group name contains '\\'", "u", "u", []string{"\\0"}, []string{""}},
+	{"groups ',', '' vs ',,'", "group name contains ','", "u", "u", []string{",", ""}, []string{",,"}},
 }
 
 func runOktaProbe(rep *vh.Report, env vh.Env, i int) {
@@ -453,6 +557,28 @@ func runOktaProbe(rep *vh.Report, env vh.Env, i int) {
 		rep.SetAdd("probe_pairs_kept_apart", tpl.name)
 	}
 	rep.Distinct("okta-probe|" + tpl.name + "|" + desc)
+}
+
+// setRelation names how set b relates to set a.
+func setRelation(a, b []string) string {
+	a, b = uniqSorted(a), uniqSorted(b)
+	common := 0
+	for _, g := range b {
+		if contains(a, g) {
+			common++
+		}
+	}
+	switch {
+	case common == len(a) && common == len(b):
+		return "same"
+	case common == 0:
+		return "disjoint"
+	case common == len(a):
+		return "superset"
+	case common == len(b):
+		return "subset"
+	}
+	return "overlapping"
 }
 
 func shuffledKeep(r *rand.Rand, gs []string) []string {
